@@ -97,12 +97,22 @@ import multiprocessing as _mp_for_exc
 FUNC_EXC_TYPES = EXC_TYPES + [StopIteration, _mp_for_exc.TimeoutError]
 
 
+class PickyExc(Exception):
+    """an exception of a SOURCE (raised in the consumer's process, so it need not survive pickling) that cannot be rebuilt as
+    type(e)(*e.args) — like json.JSONDecodeError(msg, doc, pos): the consumer gets the source's own exception object or nothing"""
+    def __init__(self, k, text):
+        super().__init__('%s at record %d' % (text, k))
+        self.k = k
+
+
 def make_exc(k, func=False):
     types = FUNC_EXC_TYPES if func else EXC_TYPES
     return types[k % len(types)](k, 'payload-%d' % k)
 
 
 def identify_exc(e):
+    if type(e) is PickyExc and e.args == ('payload at record %d' % e.k,):
+        return e.k
     if type(e) is RuntimeError and isinstance(e.__cause__, StopIteration) and 'StopIteration' in str(e):
         e = e.__cause__
     if len(e.args) == 2 and isinstance(e.args[0], int) and e.args[1] == 'payload-%d' % e.args[0]:
@@ -159,8 +169,44 @@ def identify(v, kw):
     return UNKNOWN
 
 
+ELEMENT_KINDS = ['plain', 'sulky', 'range', 'twins']
+
+# scenario dimensions a case may carry besides its core description: they belong into every replay file
+SCENARIO_FLAGS = ('hint', 'unprintable_elements', 'library_warnings_are_errors', 'element_kind', 'closable_source', 'resume', 'timeout',
+                  'tracer_active', 'source_exception', 'held_iterators', 'kind', 'k')
+
+
+def carry_flags(small, case):
+    for key in SCENARIO_FLAGS:
+        if key in case and key not in small:
+            small[key] = case[key]
+    return small
+
+
+
+def wrap_element(kind, i):
+    """the stream element that stands for source position i. 'range': a range object (a picklable non-iterator like any other element);
+    'twins': positions 2j and 2j+1 carry the equal-but-different numbers -(j+1) and -(j+1.0) (equal, same hash, different type — the
+    function tells them apart, so must the stage)"""
+    if kind == 'sulky':
+        return Sulky(i)
+    if kind == 'range':
+        return range(i, i + 2 + i % 3)
+    if kind == 'twins':
+        return -(i // 2 + 1) if i % 2 == 0 else -float(i // 2 + 1)
+    return i
+
+
 def index_of(x):
-    return x.i if isinstance(x, (Unpick, Sulky)) else x
+    if isinstance(x, (Unpick, Sulky)):
+        return x.i
+    if isinstance(x, range):
+        return x.start
+    if isinstance(x, float):
+        return 2 * (int(-x) - 1) + 1
+    if isinstance(x, int) and not isinstance(x, bool) and x < 0:
+        return 2 * (-x - 1)
+    return x
 
 
 def _apply(x, kw, table=None):
@@ -169,8 +215,8 @@ def _apply(x, kw, table=None):
     log('S', i)
     if SEMS is not None and i < len(SEMS):
         SEMS[i].acquire()
-    if KW_EXPECT is not None and kw != KW_EXPECT:
-        log('K', i)
+    if KW_EXPECT is not None and (kw != KW_EXPECT or list(kw) != list(KW_EXPECT)):
+        log('K', i)                      # the keyword arguments of the stream call, in the caller's order (PEP 468)
     log('F', i)
     if t[0] == 'u':
         return ('u', i, tuple(sorted(kw.items())))
@@ -297,6 +343,8 @@ class Src:
         self.resume = resume
         self.raised = False
         self.sulky = False
+        self.element_kind = 'plain'
+        self.picky = False
 
     def __iter__(self):
         return self
@@ -307,7 +355,7 @@ class Src:
         if self.i >= self.n:
             if self.tail is not None and not (self.resume and self.raised):
                 self.raised = True
-                raise make_exc(self.tail)
+                raise (PickyExc(self.tail, 'payload') if self.picky else make_exc(self.tail))
             if self.resume and self.i < self.n + self.resume:
                 self.i += 1
                 return self.i - 1
@@ -316,7 +364,7 @@ class Src:
         self.i += 1
         if i in self.pe:
             return Unpick(i)
-        return Sulky(i) if self.sulky else i
+        return wrap_element('sulky' if self.sulky else self.element_kind, i)
 
 
 class SrcHint(Src):
@@ -338,6 +386,8 @@ def make_src(case, n, tail, pe):
     else:
         src = Src(n, tail, pe, case.get('resume', 0))
     src.sulky = bool(case.get('unprintable_elements'))
+    src.element_kind = case.get('element_kind') or 'plain'
+    src.picky = case.get('source_exception') == 'picky'
     if case.get('closable_source'):
         # a source that is also a resource (a reader with close()): whether and when it is closed is the caller's business;
         # if somebody does call close() here, it complains the way a generator with a failing `finally` does
@@ -869,6 +919,17 @@ def _warning_policy(case):
         warnings.simplefilter('error')
         for cat in (DeprecationWarning, PendingDeprecationWarning, ImportWarning):
             warnings.filterwarnings('ignore', category=cat)
+    if case.get('tracer_active'):
+        # the program runs under a debugger / coverage tool / profiler: a trace function is installed in the consumer's thread.
+        # It observes, it does not change what a stage does
+        import sys
+        import threading
+        sys.settrace(_idle_tracer)
+        threading.settrace(_idle_tracer)
+
+
+def _idle_tracer(frame, event, arg):
+    return None
 
 
 def _runner(case):
